@@ -46,6 +46,8 @@ def generate(rng, tier, idx):
         w['flux_unit'] = 'mJy' if w['flux_unit'] not in ('mJy', 'Jy') else w['flux_unit']
     nf = len(w['filters'])
     nsrc = rng.randint(1, 12) if rng.random() < 0.5 else rng.randint(1, 4)
+    if rng.random() < (0.03 if tier == 'thorough' else 0.004):
+        nsrc = rng.choice([101, 130])          # a long catalogue: anything that depends on the NUMBER of sources seen so far
     sources = [gen_source(rng, nf, 's%02d' % i) for i in range(nsrc)]
     nd = [n_data_of(s['valid']) for s in sources]
     n_data_min = rng.randint(0, min(nf + 1, max(nd)))
